@@ -55,20 +55,33 @@ def sym_exists(lib, s):
     return (lib < 2 and s < 2) or (lib == 0 and s == 2) or (lib == 2 and s == 3)
 
 
-def d_alphabet(P, files, syms, xs=(5,)):
+def d_alphabet(P, files, syms, xs=(5,), scoped=None, reads=(0, 1, 2)):
+    """op/ld read the diagnostic in the handler; oq/lq ("quiet") do not — only offered where the operation fails;
+    sc/sq: open + load with the dl object inside the try block (scratch slot t = i+1); rx.k: late read of exception k"""
     ops = []
     for i in range(P):
         for f in files:
             ops.append(("op", i, f))
+            if not lib_exists(f):
+                ops.append(("oq", i, f))
     for i in range(P):
         for j in range(P):
             if i != j:
                 for s in syms:
                     ops.append(("ld", i, j, s))
+                    if s >= 4:
+                        ops.append(("lq", i, j, s))
                 ops += [("gt", i, j), ("cp", i, j), ("mv", i, j), ("sw", i, j)]
     for i in range(P):
         for j in range(P):
             ops += [("as", i, j), ("ma", i, j)]        # i == j: assignment to itself
+    if scoped is None:
+        scoped = [(f, s) for f in files for s in syms]
+    for i in range(P):
+        for (f, s) in scoped:
+            ops += [("sc", i, (i + 1) % P, f, s), ("sq", i, (i + 1) % P, f, s)]
+    for k in reads:
+        ops.append(("rx", k))
     for i in range(P):
         ops.append(("dr", i))
         for x in xs:
@@ -81,9 +94,13 @@ def d_alphabet(P, files, syms, xs=(5,)):
 def d_applicable(st, op):
     k = op[0]
     n = len(st)
-    if k == "op":
+    if k in ("op", "oq"):
         return op[1] < n and st[op[1]] is None
-    if k == "ld":
+    if k in ("sc", "sq"):
+        return op[1] < n and op[2] < n and op[1] != op[2] and st[op[1]] is None and st[op[2]] is None
+    if k == "rx":
+        return True
+    if k in ("ld", "lq"):
         return op[1] < n and op[2] < n and st[op[1]] is None and st[op[2]] is not None and st[op[2]][0] == "L" and st[op[2]][1] is not None
     if k == "gt":
         return op[1] < n and op[2] < n and st[op[1]] is None and st[op[2]] is not None and st[op[2]][0] == "L"
@@ -103,10 +120,13 @@ def d_shape_step(st, op):
         return st
     st = list(st)
     k = op[0]
-    if k == "op":
+    if k in ("op", "oq"):
         if lib_exists(op[2]):
             st[op[1]] = ("L", op[2])
-    elif k == "ld":
+    elif k in ("sc", "sq"):
+        if lib_exists(op[3]) and sym_exists(op[3], op[4]):
+            st[op[1]] = ("S", op[3])
+    elif k in ("ld", "lq"):
         lib = st[op[2]][1]
         if sym_exists(lib, op[3]):
             st[op[1]] = ("S", lib)
@@ -126,7 +146,7 @@ def d_shape_step(st, op):
 
 
 def d_exhaustive(P, files, syms, depth):
-    ops = d_alphabet(P, files, syms)
+    ops = d_alphabet(P, files, syms, scoped=[(0, 0), (0, 7), (5, 0)], reads=(0, 1))
 
     def rec(st, d, acc):
         if d == 0:
@@ -163,14 +183,16 @@ class C19(Check):
                  "arbitrary operation lists, for every world of existing files/symbols) + extraction-based differential test against "
                  "the C++: setenv/unsetenv for env::get, and real dlopen of two tiny shared objects and of the program itself with "
                  "dlopen/dlsym/dlclose counted per handle through linker --wrap")
-    level_text = ("Nineteen theorems proved in Coq. env::get: for EVERY getenv function, name and default — a set variable yields its "
+    level_text = ("Twenty-one theorems proved in Coq. env::get: for EVERY getenv function, name and default — a set variable yields its "
                   "exact value also when that is the empty string, an unset one yields the default, the no-default form raises "
                   "exactly when unset. dl: for ALL lists of open / load / get / copy-construct / move-construct / copy-assign / "
                   "move-assign / swap / destroy / call operations and every world — dlclose is called at most once per handle and never on NULL, a handle is closed exactly when no owner "
                   "(library object, symbol, raw handle, or a copy / assignment target of either) is left, an assignment makes the "
                   "target hold the source's handle and function and releases its previous one, a moved-from object owns nothing, "
                   "a call through an owning symbol always finds the library of the function it holds mapped, a failed open creates and closes nothing and raises the dl exception with the "
-                  "loader's diagnostic, a failed look-up raises likewise and leaves every handle and owner unchanged, a stale "
+                  "loader's diagnostic, a failed look-up raises likewise and leaves every handle and owner unchanged, a caught exception "
+                  "carries the diagnostic of its own failure and returns the same text whenever it is read, whatever loader "
+                  "operations happen in between, a stale "
                   "pending loader error does not disturb a successful look-up, and after the last owner is gone every library "
                   "ever opened has been closed exactly once. The models follow the constructors statement by statement and are "
                   "tied to /repo by running extracted models and real code (ASan/UBSan build of the working tree) on the same "
@@ -200,7 +222,10 @@ class C19(Check):
             "call, stale error} on a pool of 3 owners, then random sequences of length <= 10 (thorough <= 16) on a pool of 4 that "
             "also open the program itself, biased towards symbols outliving their library object, and structured sequences: two "
             "library objects (same or different files) with a symbol each, then assignments / swaps between the existing objects, "
-            "destructions in random order and calls through every surviving symbol. The state (dlclose count per handle, owners, dlclose(NULL) count) is observed after EVERY step. "
+            "destructions in random order and calls through every surviving symbol; and failure sequences: several failed opens / "
+            "look-ups with different names, inside and outside a scope that also destroys the dl object during unwinding, whose "
+            "exception objects are copied out of the handler and whose dlerror()/what() are read at once and/or only after "
+            "further loader operations, and read again. The state (dlclose count per handle, owners, dlclose(NULL) count) is observed after EVERY step. "
             "Non-trivial: an env case that reads a variable that is set at that moment, or set to ''; a dl case in which a library "
             "object is destroyed while a symbol or copy still owns the handle, or in which an open/look-up fails. "
             "distinct = distinct case line")
@@ -286,7 +311,7 @@ class C19(Check):
                         c2 = [o for o in cand if o[0] in ("ld", "cp", "gt", "mv", "as", "ma", "sw")]
                         cand = c2 or cand
                     elif r < 0.55:
-                        c2 = [o for o in cand if o[0] == "dr" and st[o[1]][0] == "L"] + [o for o in cand if o[0] == "cl"]
+                        c2 = [o for o in cand if o[0] == "dr" and st[o[1]][0] == "L"] + [o for o in cand if o[0] in ("cl", "rx")]
                         cand = c2 or cand
                     o = rng.choice(cand)
                 else:
@@ -323,6 +348,50 @@ class C19(Check):
                 if st[i] is not None and st[i][0] == "S" and st[i][1] is not None:
                     seq.append(("cl", i, 3))
             yield d_case(5, seq), "dl-assign"
+        # ---- dl, structured: several failures (different missing files / symbols, in and outside a scope), whose diagnostics
+        #      are read at once or only LATER, after further loader operations, and then read again
+        for _ in range(1500 if quick else 15000):
+            st = (None,) * 4
+            seq = []
+            nexc = 0
+            def push(o):
+                nonlocal st
+                seq.append(o)
+                st = d_shape_step(st, o)
+            if rng.random() < 0.7:
+                push(("op", 0, rng.choice([0, 1, 2])))
+            for _ in range(rng.randint(1, 4)):
+                r = rng.random()
+                q = rng.random() < 0.7
+                if r < 0.35:
+                    free = [i for i in range(4) if st[i] is None]
+                    if free:
+                        push(("oq" if q else "op", rng.choice(free), rng.choice([5, 6, 7, 8])))
+                        nexc += 1
+                elif r < 0.6 and st[0] is not None and st[0][0] == "L" and st[0][1] is not None:
+                    free = [i for i in range(1, 4) if st[i] is None]
+                    if free:
+                        push(("lq" if q else "ld", rng.choice(free), 0, rng.choice([7, 8, 9])))
+                        nexc += 1
+                else:
+                    free = [i for i in range(4) if st[i] is None and st[(i + 1) % 4] is None]
+                    if free:
+                        i = rng.choice(free)
+                        f, sy = rng.choice([(0, 7), (1, 8), (1, 2), (2, 9), (5, 0), (6, 1)])
+                        push(("sq" if q else "sc", i, (i + 1) % 4, f, sy))
+                        nexc += 1
+                # loader activity in between: successful open / load / call / close
+                for _ in range(rng.randint(0, 3)):
+                    cand = [o for o in alpha if d_applicable(st, o) and o[0] in ("op", "ld", "cl", "dr", "sc", "cp")]
+                    if cand:
+                        push(rng.choice(cand))
+            ks = list(range(nexc + 1))
+            rng.shuffle(ks)
+            for k in ks:
+                push(("rx", k))
+            for k in ks[:2]:
+                push(("rx", k))
+            yield d_case(4, seq), "dl-exc"
         # ---- dl, malformed: anything at any time, also slots that do not exist
         wild = d_alphabet(5, (0, 1, 2, 5), (0, 2, 3, 7))
         for _ in range(300 if quick else 3000):
